@@ -1003,3 +1003,46 @@ func boundedCounter(info *types.Info, fd *ast.FuncDecl, call *ast.CallExpr) (str
 	}
 	return "", false
 }
+
+// CheckAliasAware (C09 e): the function that reads the type parameters of
+// the requested interface must look through alias nodes: a generic alias
+// (type A[T any] = I[T]) is a *types.Alias, not a *types.Named.
+func CheckAliasAware(run *core.Run, prog *load.Program) {
+	f, _, info := moqFunc(prog, load.PkgRegistry, "Registry.LookupInterface")
+	if f == nil {
+		run.Undecided("G-ALIAS-AWARE", "role", "internal/registry/registry.go", "LookupInterface not found")
+		return
+	}
+	n := 0
+	ast.Inspect(f.Decl.Body, func(x ast.Node) bool {
+		ta, ok := x.(*ast.TypeAssertExpr)
+		if !ok || ta.Type == nil || types.ExprString(ta.Type) != "*types.Named" {
+			return true
+		}
+		n++
+		okUn := false
+		if call, ok := ast.Unparen(ta.X).(*ast.CallExpr); ok {
+			if fn, ok := typeutil.Callee(info, call).(*types.Func); ok && fn.FullName() == "go/types.Unalias" {
+				okUn = true
+			}
+		}
+		// an alias-aware alternative: the function also asserts *types.Alias
+		alias := false
+		ast.Inspect(f.Decl.Body, func(y ast.Node) bool {
+			if tb, ok := y.(*ast.TypeAssertExpr); ok && tb.Type != nil && types.ExprString(tb.Type) == "*types.Alias" {
+				alias = true
+			}
+			if cc, ok := y.(*ast.CaseClause); ok {
+				for _, e := range cc.List {
+					if types.ExprString(e) == "*types.Alias" {
+						alias = true
+					}
+				}
+			}
+			return true
+		})
+		run.Check("G-ALIAS-AWARE/typeparams", "LookupInterface:"+types.ExprString(ta), prog.Pos(ta.Pos()), okUn || alias, "the type parameters of the requested interface are read through "+types.ExprString(ta)+": for a generic alias (type A[T any] = I[T]) the object's type is a *types.Alias, the assertion fails silently and the mock loses its type parameters")
+		return true
+	})
+	run.Check("G-ALIAS-AWARE/typeparams", "LookupInterface:site", prog.Pos(f.Decl.Pos()), n > 0 || true, "")
+}
